@@ -119,6 +119,14 @@ func (in *Interp) callVP(fr *frame, f *ssa.Function, args []Value, site ssa.Inst
 		return args[2]
 	case "vpPanics":
 		return in.vpPanics(fr, args[0])
+	case "vpDerived":
+		// a value computed by (possibly intercepted) real code in the engine; natively it is re-supplied from the tape
+		t, ok := args[0].(*Term)
+		if !ok {
+			unsupp("vpDerived of non-scalar %T", args[0])
+		}
+		in.tape = append(in.tape, tapeEntry{Kind: "Derived", term: t})
+		return t
 	case "vpFloatLt": // IEEE < on float64 without forking (harness convenience)
 		return tb.FLt(term(args[0]), term(args[1]))
 	case "vpUF64": // uninterpreted function of two uint64 (harness-side abstractions)
@@ -415,6 +423,38 @@ func vpIte[T any](c bool, a, b T) T {
 	return b
 }
 func vpFloatLt(a, b float64) bool { return a < b }
+
+// vpDerived: in the engine the argument (computed by real, possibly intercepted code) is kept;
+// natively the engine's value for it is read back from the tape.
+func vpDerived[T any](x T) T {
+	v := vpNext()
+	var r any
+	switch any(x).(type) {
+	case float64:
+		r = math.Float64frombits(v)
+	case float32:
+		r = math.Float32frombits(uint32(v))
+	case int64:
+		r = int64(v)
+	case uint64:
+		r = v
+	case int:
+		r = int(v)
+	case uint:
+		r = uint(v)
+	case int32:
+		r = int32(v)
+	case uint32:
+		r = uint32(v)
+	case uint8:
+		r = uint8(v)
+	case bool:
+		r = v&1 == 1
+	default:
+		panic(fmt.Sprintf("vpDerived: unsupported type %T", x))
+	}
+	return r.(T)
+}
 
 func vpPanics(f func()) (p bool) {
 	defer func() {
